@@ -47,7 +47,7 @@ pub proof fn lemma_store_tail_pre<V: Value>(e: Endian, c0: Cells<V>, bk: Option<
     requires cells_wf(c0), c0.contains_key(w), c0[w] is Backref,
     ensures ({
         let b1 = c0[w]->Backref_0;
-        &&& b1 < w && is_val(c0, b1) && val_ok(val_at(c0, b1)) && w < end_of(c0, b1) <= u64::MAX
+        &&& b1 < w && is_val(c0, b1) && val_ok(val_at(c0, b1)) && w < end_of(c0, b1) <= u64::MAX && val_at(c0, b1).vbits() <= MAX_BITS()
         &&& all_present(e, c0, bk, w, (end_of(c0, b1) - w) as nat)
         &&& forall|x: u64| w <= x < end_of(c0, b1) ==> #[trigger] c0.contains_key(x)
     }),
@@ -55,6 +55,7 @@ pub proof fn lemma_store_tail_pre<V: Value>(e: Endian, c0: Cells<V>, bk: Option<
     let b1 = c0[w]->Backref_0;
     assert(inv_ref(c0, w));
     assert(inv_val(c0, b1));
+    val_at(c0, b1).lemma_value_laws();
     assert forall|x: u64| w <= x < end_of(c0, b1) implies #[trigger] c0.contains_key(x) by {
         assert(inv_cov(c0, b1, x));
     }
@@ -86,16 +87,18 @@ pub proof fn lemma_store_mid<V: Value>(e: Endian, c0: Cells<V>, bk: Option<SecMa
         c0.contains_key(a), c0[a] is Backref,
     ensures ({
         let b2 = c0[a]->Backref_0;
-        &&& b2 < a && a < end_of(c0, b2) <= u64::MAX && val_ok(val_at(c0, b2))
+        &&& b2 < a && a < end_of(c0, b2) <= u64::MAX && val_ok(val_at(c0, b2)) && val_at(c0, b2).vbits() <= MAX_BITS()
         &&& cells_base(c1) && cells_cov_on(c1, b2 as int, a as int)
         &&& c1.contains_key(a) && c1[a] == c0[a] && is_val(c1, b2) && val_at(c1, b2) == val_at(c0, b2)
         &&& all_present(e, c1, bk, b2, (a - b2) as nat)
         &&& forall|x: u64| b2 <= x < a ==> c1.contains_key(x) && #[trigger] own_at(e, c1, x) == own_at(e, c0, x)
+        &&& forall|x: u64| b2 <= x < a ==> #[trigger] c1.contains_key(x)
     }),
 {
     let b2 = c0[a]->Backref_0;
     assert(inv_ref(c0, a));
     assert(inv_val(c0, b2));
+    val_at(c0, b2).lemma_value_laws();
     match ph1 {
         None => {
             assert forall|x: u64| b2 <= x < a implies c1.contains_key(x) && #[trigger] own_at(e, c1, x) == own_at(e, c0, x) by {
@@ -129,6 +132,9 @@ pub proof fn lemma_store_mid<V: Value>(e: Endian, c0: Cells<V>, bk: Option<SecMa
                 if x != b2 { assert(inv_cov(c0, b2, x)); }
             }
         },
+    }
+    assert forall|x: u64| b2 <= x < a implies #[trigger] c1.contains_key(x) by {
+        assert(own_at(e, c1, x) == own_at(e, c0, x));
     }
     assert forall|i: int| 0 <= i < a - b2 implies (#[trigger] full_at(e, c1, bk, b2 + i)) is Some by {
         let x = (b2 + i) as u64;
